@@ -76,6 +76,7 @@ RAC_FOR_FUNCTION['parse_inline_tag'] = ['comment_frontends']
 RAC_FOR_FUNCTION['lex_ip_schemepart'] = ['url_scanner', 'lexers']
 
 UNIT_RAC = {
+    'vec_ext': ['remove_indices'],
     'mask': ['mask_push', 'mask_merge'],
     'mask_parser': ['comment_frontends', 'lhs_frontend'],
     'number': ['number_suffix_rule'],
